@@ -168,16 +168,28 @@ class NmpfitStrategy(HoloPyObject):
     def minimize(self, parameters, obj_func):
         if not hasattr(self, "_parameters"):
             self._parameters = parameters
+
+        def scaled_bound(par, bound, inside):
+            # unscale(scale(bound)) can land one rounding error outside the
+            # bound, where the prior is 0; move the limit given to mpfit
+            # inwards until everything within it unscales to within the bound
+            scaled = par.scale(bound)
+            while (par.unscale(scaled) - bound) * inside < 0:
+                scaled = np.nextafter(scaled, inside * np.inf)
+            return scaled
+
         nmp_pars = []
         for par in parameters:
             d = {'parname': par.name, 'value': par.scale(par.guess),
                  'limited': [False, False], 'limits': [np.nan, np.nan]}
             if hasattr(par, "lower_bound") and par.lower_bound > -np.inf:
                 d['limited'][0] = True
-                d['limits'][0] = par.scale(par.lower_bound)
+                d['limits'][0] = scaled_bound(par, par.lower_bound, 1)
+                d['value'] = max(d['value'], d['limits'][0])
             if hasattr(par, "upper_bound") and par.upper_bound < np.inf:
                 d['limited'][1] = True
-                d['limits'][1] = par.scale(par.upper_bound)
+                d['limits'][1] = scaled_bound(par, par.upper_bound, -1)
+                d['value'] = min(d['value'], d['limits'][1])
             nmp_pars.append(d)
 
         def resid_wrapper(parameters, fjac=None):
